@@ -1,19 +1,40 @@
 ----------------------------- MODULE MC_Interp -----------------------------
 (* TLC-only wrapper: behaviour export for replay against the implementation *)
-EXTENDS Interp, Json
+EXTENDS Interp, Json, IOUtils
+
+Neg1 == -1
 
 \* one line per finished behaviour: the document, its limits, what the
 \* specification predicts (reference meaning + this machine's outcome)
 Export ==
     phase = "done" =>
         LET I == IdealNow
-        IN PrintT(<<"REPLAY", ToJson([family |-> Family, doc |-> doc, lim |-> lim, str |-> StrMode, iv |-> InitVal,
+        IN PrintT(<<"REPLAY", ToJson([family |-> Family, doc |-> FullDoc, rawdoc |-> doc, lim |-> lim, str |-> StrMode, iv |-> InitVal,
                                      dev |-> Deviations,
                                      res |-> result, items |-> Proj(out),
                                      stale |-> ~NoStale(out),
-                                     ideal |-> I.res, idealrc0 |-> Ideal(doc, [Ctx EXCEPT !.rc = 0]).res, iitems |-> I.items, unr |-> I.unr,
+                                     ideal |-> I.res, idealrc0 |-> Ideal(FullDoc, [Ctx EXCEPT !.rc = 0]).res, iitems |-> I.items, unr |-> I.unr,
                                      irng |-> I.rng, rng |-> rng,
                                      norefs |-> (I.refs = {}),
-                                     refsok |-> RefsOK(I.refs, doc),
-                                     nesting |-> Nesting(doc), passes |-> passes])>>)
+                                     refsok |-> RefsOK(I.refs, FullDoc),
+                                     nesting |-> Nesting(FullDoc), passes |-> passes])>>)
+
+\* Run the machine on given documents (NDJSON records with rawdoc, lim in the
+\* file named by the environment variable GIVEN) instead of building them:
+\* used to obtain the prediction of a deviation for exactly the documents a
+\* simulation produced.
+Given == ndJsonDeserialize(IOEnv.GIVEN)
+
+InitGiven ==
+    /\ \E i \in 1..Len(Given) : doc = Given[i].rawdoc /\ lim = Given[i].lim
+    /\ phase = "run"
+    /\ ret = RetNone
+    /\ depth = 0 /\ scopes = <<InitScope(UNDEF)>>
+    /\ emap = [i \in Ids |-> "none"] /\ omap = {}
+    /\ inSpecs = FALSE /\ rng = 0
+    /\ result = "running" /\ out = <<>> /\ passes = 0
+    /\ gx = [i \in Ids |-> 0] /\ px = 0
+    /\ stack = <<NewPe(FullDoc)>>
+
+SpecGiven == InitGiven /\ [][RunNext]_vars
 =============================================================================
